@@ -12,7 +12,7 @@ SPEC = {
         "300-301": "request to the field without argument struct (nilParseArguments): outcome class; resolver ran although refused / did not run",
     },
     "corr_name": "Args.ModelBuilder (build_top: makeStructParser / getStructObjectFields / makeArgParser / parseGraphQLFieldInfo on the raw reflect view; parse_noargs) + Args.Model (parse_doc: defaults, then fragment bodies, then the operation; vtj; parse; prepare) vs schema.Build / graphql.Parse / PrepareQuery (Selection.Args) / Execute with reflect-built and catalogue argument structs, field in the operation body, a named fragment or an inline fragment; histories of operations sharing one variables map",
-    "coq_modules": ["Args.Model", "Args.Spec", "Args.Codec", "Args.Proofs", "Args.ProofsReject", "Args.ProofsInst", "Args.ProofsSubst", "Args.ProofsTotal", "Args.ProofsDoc", "Args.ProofsPaginated", "Gen.ArgParsers", "Args.Table", "Args.ModelBuilder", "Args.ProofsBuilder", "Args.ProofsRange", "Args.Check"],
+    "coq_modules": ["Args.Model", "Args.Spec", "Args.Codec", "Args.Proofs", "Args.ProofsReject", "Args.ProofsInst", "Args.ProofsSubst", "Args.ProofsTotal", "Args.ProofsDoc", "Args.ProofsPaginated", "Gen.ArgParsers", "Args.Table", "Args.ModelBuilder", "Args.ProofsBuilder", "Args.ProofsRange", "Args.ProofsEnum", "Args.Check"],
     "harness_timeout": {"quick": 600, "thorough": 3000},
     "search": {"n": 6000, "timeout": 900},
     "trusted_base": [
@@ -25,7 +25,7 @@ SPEC = {
         "the harness's raw reflect dump of argument structs (rawCoq: kinds, names, tags, PkgPath / Anonymous, and per type: registered enum, "
         "scalarArgParsers entry by internal.TypesIdenticalOrScalarAliases' rule, TextUnmarshaler) - the input of the builder model",
         "Go harness harness/cmd/c18 (type and value generators, reflect.StructOf / MakeFunc schema, type-directed dump, oracle, "
-        "Coq term printer); its catalogue of named types (named scalars, three enums, a TextUnmarshaler, five nested structs)",
+        "Coq term printer); its catalogue of named types (named scalars, five enums - two registered with aliases -, a TextUnmarshaler, five nested structs)",
         "third-party code modelled, not verified: graphql-go lexer/parser (query text -> AST, strconv for number tokens), "
         "encoding/json (variables), encoding/base64, time.Parse(RFC3339) on the sub-language YYYY-MM-DDTHH:MM:SS[.d{1,9}](Z|+-HH:MM); "
         "in the theorems they are Section variables with round-trip hypotheses",
